@@ -11,6 +11,8 @@ FAMILIES = {
         {'family': 'idwrap', 'knobs': {}, 'quick': 200, 'thorough': 3000, 'first': 300000},
         {'family': 'core', 'knobs': {'frag': 64, 'max_inter': 4, 'min_inter': 2, 'p_cancel': 0.0, 'p_error': 0.02}, 'quick': 150,
          'thorough': 3000, 'first': 100000},
+        # requests parked while no lease is available must still be delivered, each exactly once, when leases arrive
+        {'family': 'lease', 'knobs': {}, 'quick': 150, 'thorough': 2500, 'first': 400000},
     ],
     'C05': [
         {'family': 'core', 'knobs': {'frag': 64, 'gating': True, 'min_steps': 20, 'max_steps': 60, 'sources': ['scripted'],
